@@ -86,7 +86,7 @@ pub fn gen_world(rng: &mut Rng, tag: &str, o: &WorldOpts) -> Result<World, Strin
     let mut oov_kinds = vec![];
     if rng.chance(1, 2) {
         wd.write("unk_gen.def", &unk_def(rng, n));
-        oov.push(r#"{"class":"com.worksap.nlp.sudachi.MeCabOovPlugin","charDef":"char.def","unkDef":"unk_gen.def"}"#.to_string());
+        oov.push(r#"{"class":"com.worksap.nlp.sudachi.MeCabOovPlugin","charDef":"char_full.def","unkDef":"unk_gen.def"}"#.to_string());
         oov_kinds.push("mecab");
     }
     if rng.chance(1, 3) {
@@ -126,7 +126,7 @@ pub fn gen_world(rng: &mut Rng, tag: &str, o: &WorldOpts) -> Result<World, Strin
     }
     desc.push(format!("rewrite:{}", pr.len()));
 
-    let cfg = config_json(&wd, &input, &oov, &pr, &[]);
+    let cfg = config_json_cd(&wd, "char_full.def", &input, &oov, &pr, &[]);
 
     // user dictionaries: built against the loaded system dictionary
     let nusers = if o.max_users == 0 { 0 } else { rng.below(o.max_users + 1) };
